@@ -696,7 +696,176 @@ func foldEmpty(n *doc.Node) *doc.Node {
 	return n
 }
 
+// Fixed member of the family whose fields are ordered maps with typed values
+// (each value is decoded on its own: nothing of one entry may show up in another).
+type c16Leaf struct {
+	A string   `yaml:"a"`
+	B []string `yaml:"b"`
+	N int      `yaml:"n"`
+}
+
+type c16OrderedFields struct {
+	Lists  *ordered.Map[string, []string]          `yaml:"lists"`
+	Leaves *ordered.Map[string, *c16Leaf]          `yaml:"leaves"`
+	Vals   *ordered.Map[string, c16Leaf]           `yaml:"vals"`
+	Maps   *ordered.Map[string, map[string]string] `yaml:"maps"`
+	SS     *ordered.MapSS                          `yaml:"ss"`
+	Rest   map[string]any                          `yaml:",inline"`
+}
+
+type c16PlainFields struct {
+	Lists  map[string][]string          `yaml:"lists"`
+	Leaves map[string]*c16Leaf          `yaml:"leaves"`
+	Vals   map[string]c16Leaf           `yaml:"vals"`
+	Maps   map[string]map[string]string `yaml:"maps"`
+	SS     map[string]string            `yaml:"ss"`
+	Rest   map[string]any               `yaml:",inline"`
+}
+
+func c16OrderedPhase(c *run.Ctx) {
+	c.Parallel("omap", c.N(3000, 100000), func(i int, r *rand.Rand) {
+		id := run.CaseID("omap", i)
+		n := 0
+		word := func() string { n++; return fmt.Sprintf("w%d", n) }
+		list := func() *doc.Node {
+			l := doc.L()
+			l.Seq = []*doc.Node{}
+			for j, m := 0, r.IntN(4); j < m; j++ {
+				l.Seq = append(l.Seq, doc.S(word()))
+			}
+			return l
+		}
+		leaf := func() *doc.Node {
+			m := doc.M()
+			m.Map = []doc.Pair{}
+			if r.IntN(3) != 0 {
+				m.Map = append(m.Map, doc.P("a", doc.S(word())))
+			}
+			if r.IntN(3) != 0 {
+				m.Map = append(m.Map, doc.P("b", list()))
+			}
+			if r.IntN(3) == 0 {
+				n++
+				m.Map = append(m.Map, doc.P("n", doc.I(int64(n))))
+			}
+			return m
+		}
+		section := func(mk func() *doc.Node) *doc.Node {
+			m := &doc.Node{Kind: doc.KMap, Map: []doc.Pair{}}
+			for j, k := 0, r.IntN(5); j < k; j++ {
+				m.Map = append(m.Map, doc.P(word(), mk()))
+			}
+			return m
+		}
+		d := &doc.Node{Kind: doc.KMap, Map: []doc.Pair{}}
+		for _, sec := range []struct {
+			key string
+			mk  func() *doc.Node
+		}{{"lists", list}, {"leaves", leaf}, {"vals", leaf}, {"maps", func() *doc.Node {
+			m := &doc.Node{Kind: doc.KMap, Map: []doc.Pair{}}
+			for j, k := 0, r.IntN(3); j < k; j++ {
+				m.Map = append(m.Map, doc.P(word(), doc.S(word())))
+			}
+			return m
+		}}, {"ss", func() *doc.Node { return doc.S(word()) }}, {"extra" + word(), list}} {
+			if r.IntN(5) != 0 {
+				d.Map = append(d.Map, doc.P(sec.key, section(sec.mk)))
+			}
+		}
+		r.Shuffle(len(d.Map), func(a, b int) { d.Map[a], d.Map[b] = d.Map[b], d.Map[a] })
+		var got c16OrderedFields
+		var uerr error
+		if pi := run.Guard(func() { uerr = ordered.Unmarshal(docToAny(d), &got) }); pi != nil {
+			c.Violation(id, map[string]any{"what": "Unmarshal panicked: " + pi.Value, "document": d.String(), "stack": pi.Stack})
+			return
+		}
+		c.Eval(1)
+		if uerr != nil {
+			c.Violation(id, map[string]any{"what": "well-typed document rejected: " + uerr.Error(), "document": d.String()})
+			return
+		}
+		var ref c16PlainFields
+		if err := yaml.Unmarshal(doc.ToJSON(d), &ref); err != nil {
+			c.Infra("omap: yaml.v3 rejects the document: %v", err)
+			return
+		}
+		// distinct entries never share a pointer
+		if got.Leaves != nil {
+			seen := map[*c16Leaf]string{}
+			bad := ""
+			_ = got.Leaves.Range(func(k string, v *c16Leaf) error {
+				if prev, dup := seen[v]; dup && v != nil {
+					bad = fmt.Sprintf("entries %q and %q of an ordered map of pointers are the same pointer", prev, k)
+				}
+				seen[v] = k
+				return nil
+			})
+			if bad != "" {
+				c.Violation(id, map[string]any{"what": bad, "document": d.String()})
+				return
+			}
+		}
+		// same data as yaml.v3's own decoder gives for the plain-map twin, and document order kept
+		gd := &doc.Node{Kind: doc.KMap, Map: []doc.Pair{}}
+		sect := func(name string, isNil bool, rng func(func(string, any))) {
+			if isNil {
+				gd.Map = append(gd.Map, doc.P(name, doc.Null()))
+				return
+			}
+			m := &doc.Node{Kind: doc.KMap, Map: []doc.Pair{}}
+			rng(func(k string, v any) { m.Map = append(m.Map, doc.P(k, valToDoc(reflect.ValueOf(v)))) })
+			gd.Map = append(gd.Map, doc.P(name, m))
+		}
+		sect("Lists", got.Lists == nil, func(f func(string, any)) {
+			_ = got.Lists.Range(func(k string, v []string) error { f(k, v); return nil })
+		})
+		sect("Leaves", got.Leaves == nil, func(f func(string, any)) {
+			_ = got.Leaves.Range(func(k string, v *c16Leaf) error { f(k, v); return nil })
+		})
+		sect("Vals", got.Vals == nil, func(f func(string, any)) { _ = got.Vals.Range(func(k string, v c16Leaf) error { f(k, v); return nil }) })
+		sect("Maps", got.Maps == nil, func(f func(string, any)) {
+			_ = got.Maps.Range(func(k string, v map[string]string) error { f(k, v); return nil })
+		})
+		sect("SS", got.SS == nil, func(f func(string, any)) { _ = got.SS.Range(func(k string, v string) error { f(k, v); return nil }) })
+		gd.Map = append(gd.Map, doc.P("Rest", valToDoc(reflect.ValueOf(got.Rest))))
+		rd := valToDoc(reflect.ValueOf(ref))
+		if diff := doc.Equal(foldEmpty(rd), foldEmpty(gd), doc.EqOpts{}); diff != "" {
+			c.Violation(id, map[string]any{"what": "struct with ordered-map fields of typed values: result differs from yaml.v3's decoder on the plain-map twin: " + diff,
+				"document": d.String(), "yaml_v3": rd.String(), "go_pipeline": gd.String()})
+			return
+		}
+		for _, sec := range d.Map {
+			var keys []string
+			switch sec.Key {
+			case "lists":
+				_ = got.Lists.Range(func(k string, _ []string) error { keys = append(keys, k); return nil })
+			case "leaves":
+				_ = got.Leaves.Range(func(k string, _ *c16Leaf) error { keys = append(keys, k); return nil })
+			case "vals":
+				_ = got.Vals.Range(func(k string, _ c16Leaf) error { keys = append(keys, k); return nil })
+			case "maps":
+				_ = got.Maps.Range(func(k string, _ map[string]string) error { keys = append(keys, k); return nil })
+			case "ss":
+				_ = got.SS.Range(func(k string, _ string) error { keys = append(keys, k); return nil })
+			default:
+				continue
+			}
+			var want []string
+			for _, p := range sec.Val.Map {
+				want = append(want, p.Key)
+			}
+			if fmt.Sprint(keys) != fmt.Sprint(want) {
+				c.Violation(id, map[string]any{"what": fmt.Sprintf("ordered-map field %q: keys %v, document order %v", sec.Key, keys, want), "document": d.String()})
+				return
+			}
+		}
+		c.Count("documents_into_ordered_map_fields", 1)
+		c.Feature("omap", len(d.Map))
+	})
+}
+
 func checkC16(c *run.Ctx) {
+	c16OrderedPhase(c)
 	ntypes := c.N(4000, 100000)
 	ndocs := c.N(20, 50)
 	c.Parallel("type", ntypes, func(i int, r *rand.Rand) {
@@ -783,7 +952,7 @@ func checkC16(c *run.Ctx) {
 		}
 	})
 	c.Finish("exploration",
-		"a family of struct types built with reflect.StructOf from a harness-owned descriptor (scalar, slice, map, any, nested and pointer-to-struct fields; tagged, untagged, `-` and omitempty fields; alias lists; inline map, inline struct, inline pointer-to-struct incl. an inline map nested in an inline struct; inline field at a random position) x well-typed documents drawn from the same descriptor (fields addressed by primary key, by an alias with later aliases also present, absent, or null; an alias next to its primary; keys named like skipped fields; the empty key; extra keys), decoded into destinations pre-populated with sentinels; the expected partition (tag > first present alias > catch-all; untouched; zeroed) is derived from the descriptor. For alias-free types and strictly typed documents the result on a fresh value must equal yaml.v3's own decoder. distinct_nontrivial counts distinct type shapes",
+		"a fixed member with ordered-map fields of typed values (lists, structs by value and by pointer, plain maps, strings) is decoded from random documents and compared with yaml.v3 on its plain-map twin (entries independent, pointers distinct, document order kept); a family of struct types built with reflect.StructOf from a harness-owned descriptor (scalar, slice, map, any, nested and pointer-to-struct fields; tagged, untagged, `-` and omitempty fields; alias lists; inline map, inline struct, inline pointer-to-struct incl. an inline map nested in an inline struct; inline field at a random position) x well-typed documents drawn from the same descriptor (fields addressed by primary key, by an alias with later aliases also present, absent, or null; an alias next to its primary; keys named like skipped fields; the empty key; extra keys), decoded into destinations pre-populated with sentinels; the expected partition (tag > first present alias > catch-all; untouched; zeroed) is derived from the descriptor. For alias-free types and strictly typed documents the result on a fresh value must equal yaml.v3's own decoder. distinct_nontrivial counts distinct type shapes",
 		nil,
 		[]string{"types where one field's alias equals another field's key or alias are ill-formed and not generated", "present slices/maps are decoded into nil destinations (append-vs-replace for pre-populated containers is not part of the property)", "yaml.v3 comparison only where yaml.v3 supports the type (no aliases; inline map directly on the struct, or inline struct by value without its own catch-all) and without nulls"})
 }
